@@ -160,6 +160,24 @@ def r10_6(ck: Check) -> None:
         ck.ok("R10.6", construct, "", send[0].loc)
     else:
         ck.violated("R10.6", construct, "fetch step changed: %s" % [e.describe()[:160] for e in mark + send], st.fi.loc)
+    pruned = [e for e in st.events if e.kind == "store" and e.term == sp.term("self.actively_fetching_blocks_from_peers")]
+    want_pruned = sp.term("[(t, p) for (t, p) in self.actively_fetching_blocks_from_peers if now < t and not inventory_batch_handled(p)]")
+    construct = "ChainManager.step: a fetch session is kept only while it is neither timed out nor completely handled"
+    if len(pruned) == 1 and pruned[0].value == want_pruned:
+        ck.ok("R10.6", construct, "", pruned[0].loc)
+    else:
+        ck.violated("R10.6", construct, "a session that is kept when timed out OR unhandled blocks the fetch slot forever (no further get-blocks is "
+                    "ever sent): sessions := %s" % [show(e.value)[:200] for e in pruned], st.fi.loc)
+    slot = [r for r in st.returns() if sp.term("len(self.actively_fetching_blocks_from_peers) > MAX_IBD_PEERS") in [c.term for c in r.pc]]
+    app = [e for e in st.events if e.kind == "call" and e.parts and e.parts[0] == ("a", sp.term("self.actively_fetching_blocks_from_peers"), "append")]
+    construct = "ChainManager.step: at most MAX_IBD_PEERS+1 sessions; a new session is recorded with deadline now + IBD_PEER_TIMEOUT"
+    if slot and len(app) == 1 and mark and app[0].term[2] == (("tuple", (sp.term("now + IBD_PEER_TIMEOUT"), mark[0].term[1])),):
+        ck.ok("R10.6", construct, "", app[0].loc)
+    else:
+        ck.violated("R10.6", construct, "%s" % [e.describe()[:160] for e in app], st.fi.loc)
+    ib = ck.summ("skepticoin.networking.manager.inventory_batch_handled", 0)
+    require_return(ck, "R10.6", ib, Spec(ib, ("p",)), "not p.waiting_for_inventory and p.inventory_messages == []",
+                   "a batch is handled when no inventory is awaited and every queued inventory has been consumed")
     cand = mark[0].term[1][2][0] if mark else None
     want = sp.term("[peer for peer in self.local_peer.network_manager.get_active_peers() "
                    "if now > peer.last_empty_inventory_response_at + EMPTY_INVENTORY_BACKOFF]")
